@@ -51,6 +51,9 @@ Definition holds (c : case) : bool :=
 Definition holds03 (c : case) : bool :=
   match o_res c with
   | OAccept _ => negb (c_tampered c)
+  (* refused only because its nonce was used already (by the honest original, sent first): the nonce is looked at after
+     authentication, so the altered request had been authenticated *)
+  | OReject EExists => negb (c_tampered c) && negb (o_changed c)
   | OReject _ => negb (o_changed c)
   end.
 
